@@ -1545,6 +1545,12 @@ func runConcChild(w *casefile.Writer, seed uint64, iters int, extra map[string]a
 	f.Close()
 	defer os.Remove(f.Name())
 	cmd := exec.Command(os.Args[0], "-concchild", f.Name(), "-seed", fmt.Sprint(seed), "-conciters", fmt.Sprint(iters), "-out", os.TempDir())
+	childTmp, err := os.MkdirTemp("", "verif-c20-child-")
+	if err != nil {
+		panic(err)
+	}
+	defer os.RemoveAll(childTmp) // also when the child dies without cleaning up its cluster directory
+	cmd.Env = append(os.Environ(), "TMPDIR="+childTmp)
 	tb := &tailBuf{}
 	cmd.Stderr = tb
 	cmd.Stdout = tb
